@@ -15,14 +15,14 @@ static ff::uMPMC_Ptr_Queue *Q;
 static int NP = 2, NPUSH = 2, NC = 1, NPOP = 4;
 
 // ---- event log (execution is serialised by the scheduler: a plain global sequence is a total order)
-struct OpRec { int thread; bool push; int token; long ticket = -1; bool ok = false; long start = 0, end = 0; long observe_seq = -1; };
+struct OpRec { int thread; bool push; int token; long ticket = -1; bool ok = false; long start = 0, end = 0; long observe_seq = -1; long cas_at = -1; };
 static std::vector<OpRec> ops; static long gseq = 0;
 static __thread OpRec *cur = nullptr;
 static std::map<long, long> publish_at;	// push ticket -> global sequence at which seqP[lane] was published
 static const volatile void *a_preadP, *a_preadC, *a_seqP0, *a_seqP1;
 
 extern "C" void vs_hook_cas(const volatile void *addr, unsigned long exchange, unsigned long compare, unsigned long result, int)
-{ ++gseq; if (cur && result == compare && (addr == a_preadP || addr == a_preadC)) cur->ticket = (long)compare; }
+{ ++gseq; if (cur && result == compare && (addr == a_preadP || addr == a_preadC)) { cur->ticket = (long)compare; cur->cas_at = gseq; } }
 extern "C" void vs_hook_set(const volatile void *addr, unsigned long value, int)
 { ++gseq; if (cur && cur->push && (addr == a_seqP0 || addr == a_seqP1)) publish_at[cur->ticket] = gseq; }
 extern "C" void vs_hook_read(const volatile void *addr, unsigned long, int)
@@ -99,6 +99,16 @@ static std::string body()
 				verdict = "empty-only-if-nothing-pushed-ahead|pop reported empty at " + std::to_string(r->observe_seq) + " although the push with ticket " + std::to_string(consumed) + " had published at " + std::to_string(it->second);
 				break;
 			}
+		}
+	}
+	// an empty answer is also wrong, whatever the pop looked at, if tickets 0..K-1 had all been published before the pop started
+	// and fewer than K pops had reserved a ticket by the time it returned: the element with ticket #reservations was there all along
+	if (verdict.empty()) {
+		for (auto& r : ops) {
+			if (!r.start || r.push || r.ok) continue;
+			long K = 0; while (publish_at.count(K) && publish_at[K] < r.start) ++K;
+			long rsv = 0; for (auto& o : ops) if (o.start && !o.push && o.ok && o.cas_at >= 0 && o.cas_at < r.end) ++rsv;
+			if (K > rsv) { verdict = "empty-only-if-nothing-pushed-ahead|pop (" + std::to_string(r.start) + ".." + std::to_string(r.end) + ") reported empty although tickets 0.." + std::to_string(K - 1) + " were published before it started and only " + std::to_string(rsv) + " had been reserved when it returned"; break; }
 		}
 	}
 	delete Q;
